@@ -66,8 +66,29 @@ for d in sorted(glob.glob(os.path.join(SRC, "*"))):
     if meta.get("retired"):
         caught = "RETIRED: " + meta["retired"]
     rows.append((name, meta.get("property"), meta.get("summary", ""), meta.get("needs", ""), caught, "; ".join(h if isinstance(h, str) else json.dumps(h) for h in meta.get("history", []))))
+# the README lists EVERY kept change (earlier rounds included), rebuilt from seeded/*/meta.json
+def natkey(n):
+    m = re.match(r"(C\d+)-(\d+)$", n)
+    return (m.group(1), int(m.group(2))) if m else (n, 0)
+allrows = []
+notkept = [r for r in rows if str(r[3]).startswith("NOT KEPT")]
+for d in sorted(glob.glob(os.path.join(ROOT, "seeded", "C*-*")), key=lambda d: natkey(os.path.basename(d))):
+    name = os.path.basename(d)
+    try:
+        meta = json.load(open(os.path.join(d, "meta.json")))
+    except Exception:
+        continue
+    v = meta.get("check_verdict")
+    caught = "not run yet"
+    if v:
+        caught = ("caught, failing input (%s oracle failures)" % v.get("oracle_failures")) if v.get("failing_input") else ("caught, no-failing-input-found" if v.get("violation") else "MISSED (exit %s)" % v.get("exit"))
+    if meta.get("retired"):
+        caught = "RETIRED: " + meta["retired"]
+    hist = meta.get("history") or []
+    if isinstance(hist, str): hist = [hist]
+    allrows.append((name, meta.get("property"), meta.get("summary", ""), meta.get("needs", ""), caught, "; ".join(h if isinstance(h, str) else json.dumps(h) for h in hist)))
 with open(os.path.join(ROOT, "seeded", "README.md"), "w") as f:
     f.write("# Seeded breaking changes\n\nWritten by engineers who saw only the property text; confirmed and run here (see DESIGN.md §9).\n`history` records changes that were missed at first and what was strengthened.\n\n| change | property | what was changed | needs to manifest | `bin/check <ID> quick` on it | history |\n|---|---|---|---|---|---|\n")
-    for r in rows:
+    for r in allrows + notkept:
         f.write("| " + " | ".join(str(x).replace("|", "\\|").replace("\n", " ") for x in r) + " |\n")
-print("imported", len(rows))
+print("imported", len(rows), "README rows", len(allrows))
